@@ -29,17 +29,17 @@ theorem next_total (s : PercentagePriceOscillator F) (x : F) (h : WF s) :
     Option.bind_eq_bind, Option.bind_some, Option.pure_def]
   exact ⟨_, rfl, ⟨(h1 _).2.1, (h2 _).2.1, (h3 _).2.1⟩, (h1 _).2.2, (h2 _).2.2, (h3 _).2.2⟩
 
-theorem nextBar_eq (s : PercentagePriceOscillator F) (b : Bar F) :
-    s.nextBar b = s.next b.close := by
-  unfold nextBar
-  try simp only [gen_helper]
-  cases h : s.next b.close <;> simp [h]
-
 /-- `nextBar` never panics on a well-formed state, keeps it well-formed and keeps the three periods -/
 theorem nextBar_total (s : PercentagePriceOscillator F) (b : Bar F) (h : WF s) :
     ∃ r, s.nextBar b = some r ∧ WF r.1 ∧ r.1.fast_ema.period = s.fast_ema.period ∧
       r.1.slow_ema.period = s.slow_ema.period ∧ r.1.signal_ema.period = s.signal_ema.period := by
-  rw [nextBar_eq]; exact next_total s b.close h
+  unfold nextBar
+  try simp only [gen_helper]
+  simp only [Option.bind_eq_bind, Option.pure_def]
+  -- one `next` step on whichever scalar the bar path feeds to it (found by unification)
+  refine bind_total (next_total _ _ h) ?_
+  rintro ⟨s', o⟩ ⟨w, p⟩
+  exact ⟨_, rfl, w, p⟩
 
 /-- `reset` never panics on a well-formed state and yields a well-formed state with the same three
     periods (nothing is said about the values the EMAs are cleared to) -/
